@@ -36,4 +36,12 @@ CASES = [
                     ("u2", "common / util / iana: label decoders through Label::from_cbor_value, cmp helpers, is_private macro"),
                     ("u3", "whole-crate modernisation (let-else, transpose, bool::then, drain, <[T; 1]>::try_from, const patterns)"),
                     ("u4", "de-duplication through shared crate-private helpers (try_as_array_of_len, take_trailing, unique_label, structure_data, infallible)"))
+] + [
+    {"id": "benign6-%s" % m, "props": ALL, "expect": "quiet", "patches": [("selftest/benign/%s.diff" % m, False)], "note": what}
+    for m, what in (("n1", "additive public API (CoseKeySet::iter/len/is_empty, FromIterator, new_okp_pub_key, ClaimsSet::is_empty, From<Header>)"),
+                    ("n2", "error / panic message strings reworded"),
+                    ("n3", "four new IANA elliptic-curve values"),
+                    ("n4", "module split: header/protected.rs, sign/builder.rs, key/set.rs behind pub use re-exports"),
+                    ("n5", "docs and attributes (#[must_use], #[inline], const fn, Hash derives)"),
+                    ("n6", "local renames and import hygiene across nine modules"))
 ]
